@@ -1490,7 +1490,7 @@ def check_C43(rep):
                "kind, near-miss sets, foreign words, set-aligned or not, behind an idle gap or not) and starts a new set "
                "if it is a first word; not-valid words are ignored everywhere")
 
-    for sub, label in ([({"SetWords": "TinyWords", "FirstCtrl": 15, "HasCfg": "TRUE", "DetN": 2, "MaxSets": 4, "MaxGaps": 1, "MaxStray": 1}, "2-word sets of 5 kinds, x2"),
+    for sub, label in ([({"SetWords": "TinyWords", "FirstCtrl": 15, "HasCfg": "TRUE", "DetN": 2, "MaxSets": 4, "MaxGaps": 1, "MaxStray": 0}, "2-word sets of 5 kinds, x2"),
                         ({"SetWords": "TS2Words", "FirstCtrl": 15, "HasCfg": "TRUE", "DetN": 2, "MaxSets": 3, "MaxGaps": 1, "MaxStray": 0}, "TS2-shaped sets of 5 kinds, x2"),
                         ({"SetWords": "TinyWords", "FirstCtrl": 1, "HasCfg": "FALSE", "DetN": 1, "MaxSets": 3, "MaxGaps": 1, "MaxStray": 1}, "2-word sets, one K symbol in the first word (TSEQ-like), x1")]
                        + ([] if quick else [({"SetWords": "TinyWords", "FirstCtrl": 15, "HasCfg": "TRUE", "DetN": 2, "MaxSets": 5, "MaxGaps": 1, "MaxStray": 1}, "2-word sets, 5 sets"),
